@@ -252,7 +252,12 @@ def check_case(case, ctx):
         if msg:
             v.append(f"{desc}: {msg}")
             continue
-        # history: the same level stream object keeps answering correctly (a plain box read, then the query again)
+        # history: the same level stream object keeps answering correctly (a plain box read, then the query again), also
+        # after the caller has edited what it was given in place (the result is the caller's own copy)
+        for arr in (got if isinstance(got, (list, tuple)) else [got]):
+            if isinstance(arr, np.ndarray) and arr.flags.writeable and arr.dtype.kind == "f":
+                arr *= 0.0
+                arr += 12345.0
         try:
             first = qcall(lambda: stream[0])
             again = qcall(lambda: stream[bobj])
